@@ -6,8 +6,8 @@ single-line scalars, so that the str round trip is a statement about the model.
 * `chooseStyle` : `Emitter.choose_scalar_style` for a str event without forced style, not canonical, flow_level 0.
 * `writeSingle`, `writeDouble` : `write_single_quoted` / `write_double_quoted` WITHOUT line folding;
   `emitScalar` is therefore partial: `none` for strings with line breaks (multi-line styles are outside the
-  model) and when the text does not fit into `best_width` from the start column (the real emitter may fold
-  at spaces beyond that column; folding is outside the model).
+  model) and when the emitter may fold the text: it does not fit into `best_width` from the start column and
+  contains a space (or is double-quoted); folding is outside the model.
 * `loadLine` : libyaml's reading of one line that starts with a scalar (`yaml_parser_fetch_next_token` decision,
   `yaml_parser_scan_plain_scalar` in block context, `yaml_parser_scan_flow_scalar` single/double quoted), returning
   the tag (plain: `resolveLoadC`; quoted: str), the value and the rest of the line.
@@ -150,16 +150,27 @@ def textOf (simpleKey : Bool) (s : List Char) : List Char :=
   | .single => '\'' :: (writeSingleBody s ++ ['\''])
   | .double => '"' :: (writeDoubleBody allowUnicodeCfg s ++ ['"'])
 
+/-- the emitter never breaks the text of this value: it fits into `best_width` from column `col`, or it is written
+plain / single-quoted and has no space (`write_plain` and `write_single_quoted` fold only at a space that lies beyond
+`best_width`; `write_double_quoted` may also break elsewhere) -/
+def noFold (col : Nat) (s : List Char) : Bool :=
+  decide (col + (textOf false s).length ≤ Gen.DumpCfg.yamlBestWidth) ||
+  (!(s.any isSpaceA) && !(decide (styleOf false s = .double)))
+
 /-- the text the emitter writes for a str VALUE starting at column `col`; `none` = outside the model:
-the string has a line break, or the text does not fit into `best_width` (the emitter may fold it) -/
+the string has a line break, or the emitter may fold the text (see `noFold`) -/
 def emitScalar (col : Nat) (s : List Char) : Option (List Char) :=
   if isMultiline s then none
-  else if col + (textOf false s).length ≤ Gen.DumpCfg.yamlBestWidth then some (textOf false s) else none
+  else if noFold col s then some (textOf false s) else none
 
-/-- the text the emitter writes for a str KEY as a simple key (`check_simple_key`: not empty, shorter than 128,
-single line; simple keys are never folded); `none` = the `? ` complex-key form, outside the model -/
+/-- length of the prepared tag handle that `check_simple_key` adds to the length of the scalar (`!!str`, `!!int` 5,
+`!!null`, `!!bool` 6, `!!float` 7: the event of an implicit scalar still carries its tag) -/
+def strTagHandleLen : Nat := 5
+
+/-- the text the emitter writes for a str KEY as a simple key (`check_simple_key`: not empty, prepared tag + scalar
+shorter than 128, single line; simple keys are never folded); `none` = the `? ` complex-key form, outside the model -/
 def emitKey (s : List Char) : Option (List Char) :=
-  if isMultiline s || s.isEmpty || decide (128 ≤ s.length) then none else some (textOf true s)
+  if isMultiline s || s.isEmpty || decide (128 ≤ strTagHandleLen + s.length) then none else some (textOf true s)
 
 /-! ### the scanner on one line -/
 
